@@ -9,9 +9,10 @@ model one plugin at a time. Here the chain is a list of *configured built-in plu
 response carries every header field and every option, and the hypotheses about handlers are
 discharged (Props/System.lean).
 
-Chain elements: every option plugin and `server_id` (through `Plug.plugHandle4/6`), and the static
-lease `file` plugin with the table it loaded. The stateful allocating plugins (`range`, `prefix`)
-are not elements: their models are driven by their own engines.
+Chain elements: every option plugin and `server_id` (through `Plug.plugHandle4/6`), the static
+lease `file` plugin with the table it loaded, and the stateful allocating plugins `range`
+(`Elem4.lease`) and `prefix` (`Elem6.pd`) through what their state machines (Model/Range.lean,
+Model/Prefix.lean) answer for the datagram at hand.
 
 Out of the repository, hence inputs: the parser (`input = none` when `FromBytes` fails; the request
 arrives as the fields and option list the library exposes), `dhcpv6.ExtractMAC`.
@@ -20,6 +21,7 @@ Core Lean only: linked into the driver.
 import CoreDhcp.Model.Dispatch
 import CoreDhcp.Model.OptPlug
 import CoreDhcp.Model.File
+import CoreDhcp.Model.Prefix
 namespace CoreDhcp
 namespace Sys
 open Plug (Bytes Opts lookup upd4)
@@ -130,6 +132,15 @@ def neverStops4 : Elem4 → Bool
   | .plug (.search _) | .plug (.staticroute _) | .plug (.sleep _) => true
   | _ => false
 
+def isLease : Elem4 → Bool
+  | .lease _ => true
+  | _ => false
+
+/-- `server_id` (DHCPv4) with this address -/
+def isServerId4 : Elem4 → Bool
+  | .plug (.serverid _) => true
+  | _ => false
+
 inductive Out4
   | drop
   | send (resp : Resp4) (peer : BitVec 32) (port : Nat) (ifidx : Option Nat) (l2 : Bool)
@@ -197,9 +208,20 @@ def stub6 (m : Msg6) : Option Resp6 :=
       some ⟨7, m.xid, [(1, c)]⟩
     else none
 
+/-- one IA_PD of the reply as `prefix` builds it: the IAID (4 bytes) and the delegated blocks with
+their lifetime in seconds (preferred = valid); no block stands for the NoPrefixAvail status -/
+structure PdAns where
+  iaid : Bytes
+  pfxs : List (Block × Nat)
+deriving Repr, DecidableEq, Inhabited
+
 inductive Elem6
   | plug (c : Plug.Cfg6)
   | file (t : FTable)
+  /-- `prefix`, as far as one datagram is concerned: what its records and allocator answer this
+  client — one `PdAns` per IA_PD of the request, in order (`PState.handleMsg` of Model/Prefix.lean).
+  The state machine behind it is Model/Prefix.lean; the driver threads its state. -/
+  | pd (out : List PdAns)
 deriving Repr
 
 def be16 (a : Addr) : Bytes :=
@@ -210,8 +232,58 @@ then one IA Address option (code 5, length 24) -/
 def encIANA (iaid : Bytes) (a : Addr) : Bytes :=
   iaid ++ [0, 0, 0, 0, 0, 0, 0, 0] ++ [0, 5, 0, 24] ++ be16 a ++ [0, 0, 14, 16] ++ [0, 0, 14, 16]
 
+/-- `OptIAPrefix{lifetime, lifetime, prefix}` as a sub-option: code 26, length 25, preferred and
+valid lifetime (seconds), prefix length, the 16 bytes of the prefix -/
+def encIAPrefix (b : Block) (life : Nat) : Bytes :=
+  [0, 26, 0, 25] ++ Plug.be 4 life ++ Plug.be 4 life ++ [b.len] ++ be16 b.base
+
+/-- `OptIAPD{IaId, Options}.ToBytes()`: IAID, T1 = T2 = 0, then the IAPrefix sub-options or, when
+there is none, one Status Code sub-option (code 13, length 2) NoPrefixAvail (6) with an empty message -/
+def encIAPD (a : PdAns) : Bytes :=
+  a.iaid ++ [0, 0, 0, 0, 0, 0, 0, 0] ++
+    (if a.pfxs.isEmpty then [0, 13, 0, 2, 0, 6] else a.pfxs.flatMap (fun p => encIAPrefix p.1 p.2))
+
+/-- big-endian value of a byte list -/
+def beNat (b : Bytes) : Nat := b.foldl (fun a x => a * 256 + x) 0
+
+/-- the address in 16 bytes -/
+def addrOfBe16 (b : Bytes) : Addr := ⟨BitVec.ofNat 64 (beNat (b.take 8)), BitVec.ofNat 64 (beNat ((b.drop 8).take 8))⟩
+
+/-- the sub-options of an IA_PD body as a client reads them: IAPrefix (code 26, length 25) gives a
+block and its valid lifetime, Status Code (13) is skipped, anything else is refused -/
+def decPdSubs : Nat → Bytes → Option (List (Block × Nat))
+  | 0, _ => none
+  | _, [] => some []
+  | fuel + 1, c1 :: c0 :: l1 :: l0 :: rest =>
+    let code := c1 * 256 + c0
+    let len := l1 * 256 + l0
+    if rest.length < len then none
+    else
+      let body := rest.take len
+      let tail := rest.drop len
+      if code = 26 then
+        if len ≠ 25 then none
+        else
+          match decPdSubs fuel tail with
+          | none => none
+          | some ps => some ((⟨addrOfBe16 (body.drop 9), body.getD 8 0⟩, beNat ((body.drop 4).take 4)) :: ps)
+      else if code = 13 then decPdSubs fuel tail
+      else none
+  | _, _ => none
+
+/-- what a client reads back from an IA_PD option body: the IAID and the delegated blocks -/
+def decIAPD (b : Bytes) : Option PdAns :=
+  if b.length < 12 then none else (decPdSubs b.length (b.drop 12)).map (fun ps => ⟨b.take 4, ps⟩)
+
 def handle6 : Elem6 → Pkt6 → Option Resp6 → Option Resp6 × Bool
   | _, _, none => (none, true)
+  | .pd out, d, some r =>
+    match d.msg with
+    | none => (none, true)           -- `GetInnerMessage` fails: unreachable after `HandleMsg6` decapsulated
+    | some m =>
+      match lookup 1 m.opts with
+      | none => (none, true)         -- no Client-ID: unreachable, `stub6` already refused the message
+      | some _ => (some { r with opts := r.opts ++ out.map (fun a => (25, encIAPD a)) }, false)
   | .plug c, d, some r =>
     match d.msg with
     | none => (none, true)           -- unreachable: `HandleMsg6` already decapsulated successfully
@@ -233,6 +305,23 @@ def handle6 : Elem6 → Pkt6 → Option Resp6 → Option Resp6 × Bool
           match t.get mac with
           | some (.v6 a) => (some { r with opts := r.opts ++ [(3, encIANA (ia.take 4) a)] }, false)
           | _ => (some r, false)
+
+/-- lifetime on the wire: `Duration.Round(time.Second)` of a non-negative duration in ns, in seconds -/
+def secsOf (ns : Int) : Nat := ((ns + 500000000) / 1000000000).toNat
+
+/-- the reply of `PState.handleMsg` (Model/Prefix.lean) as the chain element sees it -/
+def pdOf (rs : List IAPDResp) : List PdAns :=
+  rs.map (fun r => ⟨Plug.be 4 r.iaid, r.pfxs.map (fun p => (p.1, secsOf p.2))⟩)
+
+/-- built-in DHCPv6 elements whose handler always hands a response on and never ends the chain
+(`nbp` always ends it, `server_id` may drop the message, `prefix` goes on but is not an option plugin) -/
+def neverStops6 : Elem6 → Bool
+  | .plug (.dns _) | .plug (.search _) | .plug (.sleep _) | .file _ => true
+  | _ => false
+
+def isPd : Elem6 → Bool
+  | .pd _ => true
+  | _ => false
 
 inductive Out6
   | drop
